@@ -99,6 +99,8 @@ func bigWitness(r *vk.Rand, class string, bits uint) *big.Int {
 		return new(big.Int).Lsh(one, bits+600)
 	case "out-of-range-neg":
 		return new(big.Int).Neg(new(big.Int).Lsh(one, bits+600))
+	case "out-of-range-huge":
+		return new(big.Int).Lsh(one, 1900) // still a legal Paillier plaintext, far beyond every proven range
 	}
 	x := new(big.Int).SetBytes(r.Bytes(int(bits) / 8))
 	if r.Bool() {
@@ -134,7 +136,7 @@ func scalarWitness(r *vk.Rand, class string) *big.Int {
 	return randScalarBig(r)
 }
 
-var rangeClasses = []string{"0", "+1", "-1", "+max", "-max", "random", "out-of-range", "out-of-range-neg"}
+var rangeClasses = []string{"0", "+1", "-1", "+max", "-max", "random", "out-of-range", "out-of-range-neg", "out-of-range-huge"}
 var rangeClassesXY = []string{"0", "+1", "-1", "+max", "-max", "random", "out-of-range-x", "out-of-range-y", "out-of-range-neg-x", "out-of-range-neg-y"}
 var scalarClasses = []string{"1", "q-1", "2", "random"}
 
@@ -622,9 +624,13 @@ func c10Run(t *vk.T, sys zkSystem, class string, ei int, full bool) {
 		t.Violation(sys.name+"|prover-panic|"+class+"|"+fr, "prover panicked on an in-range witness: %s", txt)
 		return
 	}
-	ok, _ := c10Verify(t, inst, h, inst.pub, proof)
+	ok, vpanic := c10Verify(t, inst, h, inst.pub, proof)
 	if outOfRange {
 		t.Distinct("%s|%s|rejected=%v", sys.name, class, !ok)
+		if vpanic {
+			t.Violation(sys.name+"|verifier-panics-on-out-of-range-proof|"+class, "the verifier panicked on a proof the ordinary prover made for an out-of-range witness (class %s) instead of rejecting it", class)
+			return
+		}
 		if ok {
 			t.Violation(sys.name+"|out-of-range-accepted|"+class, "a proof made with a witness 600 bits beyond the proven range verified")
 		}
@@ -732,6 +738,25 @@ func c10Run(t *vk.T, sys zkSystem, class string, ei int, full bool) {
 			pl1[j].v.Set(b)
 		}
 	}
+	// moduli that occur in the statement: a response shifted by one of them (or its square) is another encoding of
+	// the same residue and must not verify either
+	var moduli []*big.Int
+	for _, l := range pl1 {
+		switch x := l.v.Interface().(type) {
+		case *paillier.PublicKey:
+			if x != nil {
+				moduli = append(moduli, x.N().Big())
+			}
+		case *pedersen.Parameters:
+			if x != nil {
+				moduli = append(moduli, x.N().Big())
+			}
+		case *saferith.Modulus:
+			if x != nil {
+				moduli = append(moduli, x.Big())
+			}
+		}
+	}
 	// proof fields
 	pc := cloneProof(proof)
 	var fl, flb, fl2 []leaf
@@ -759,6 +784,18 @@ func c10Run(t *vk.T, sys zkSystem, class string, ei int, full bool) {
 		}
 		for tk, tv := range tweaks(fl[i].v) {
 			try("proof-field-"+tk, tv)
+		}
+		for mi, m := range moduli {
+			if mi >= 2 {
+				break
+			}
+			switch x := fl[i].v.Interface().(type) {
+			case *saferith.Nat:
+				try(fmt.Sprintf("proof-field-plus-modulus%d", mi), reflect.ValueOf(natOf(new(big.Int).Add(x.Big(), m))))
+				try(fmt.Sprintf("proof-field-plus-modulus%d-squared", mi), reflect.ValueOf(natOf(new(big.Int).Add(x.Big(), new(big.Int).Mul(m, m)))))
+			case *saferith.Int:
+				try(fmt.Sprintf("proof-field-plus-modulus%d", mi), reflect.ValueOf(intOf(new(big.Int).Add(x.Big(), m))))
+			}
 		}
 	}
 	// parallel rounds transplanted from another valid proof of the same statement and context: the challenge must
